@@ -442,6 +442,19 @@ def examine(case, path, pq=None, ctx=None):
     mset = None if not mc else sorted(x.decode() for x in mc[0])
     ctx.correspondence("check_categories ~ ParquetFile.check_categories", {**ccase, "categ": categ}, mset, None if final_cats is None else sorted(final_cats))
     ctx.correspondence("count ~ ParquetFile.count()", ccase, pq.call("count", rg_rows), cnt)
+    stored_ix = []
+    for ic in (pf.pandas_metadata.get("index_columns", []) if has_md else []):
+        if isinstance(ic, str):
+            stored_ix.append([ic.encode(), False])
+        elif isinstance(ic, dict):
+            stored_ix.append([str(ic.get("name")).encode(), ic.get("kind") == "range"])
+    ia = [] if ro["index"] is None else ([0] if ro["index"] is False else [[x.encode() for x in ([ro["index"]] if isinstance(ro["index"], str) else ro["index"])]])
+    mi = [x.decode() for x in pq.call("get_index", stored_ix, ia)]
+    ctx.correspondence("get_index ~ ParquetFile._get_index", {**ccase, "stored": repr(stored_ix)}, mi, list(idx or []))
+    if not multi_cols and not ro["dtypes"]:
+        mfc = pq.call("frame_columns", [c.encode() for c in cols], [c.encode() for c in pcats],
+                      None if ro["columns"] is None else [[c.encode() for c in ro["columns"]]], [c.encode() for c in (idx or [])])
+        ctx.correspondence("frame_columns ~ columns of the frame to_pandas returns", ccase, [x.decode() for x in mfc], [str(c) for c in df.columns])
     return "ok", fails
 
 
